@@ -87,17 +87,32 @@ def run(chk):
     todo = [(cgen.GOTO_WITNESS[0], cgen.GOTO_WITNESS[1])] + [(f, a) for f, a in cgen.SHAPES] + \
            [(cgen.goto_program(chk.rng), [[str(chk.rng.randrange(0, 6))]]) for _ in range(ngoto)] + \
            [(cgen.program(chk.rng), None) for _ in range(n)]
+    be_every = 3 if quick else 2
     for i, (files, fixed_args) in enumerate(todo):
         d = os.path.join(sc, "p%d" % i)
+        version = cgen.VERSIONS[(i + i // len(cgen.VERSIONS)) % len(cgen.VERSIONS)]          # rotate the gcov format versions grcov reads as LLVM output
         try:
-            gcno = cgen.build(d, files)
+            gcno = cgen.build(d, files, version=version)
             args = fixed_args if fixed_args is not None else cgen.arg_sets(chk.rng, chk.rng.randrange(0, 4))
             singles, merged = cgen.profiles(d, args)
             ref = cgen.gcov_reference(d, merged is not None)
         except Exception as ex:
             chk.extra.setdefault("skipped_programs", []).append(str(ex)[:200])
             continue
-        progs.append({"files": files, "args": args, "gcno": gcno, "singles": singles, "merged": merged, "ref": ref})
+        progs.append({"files": files, "args": args, "gcno": gcno, "singles": singles, "merged": merged, "ref": ref, "version": version, "endian": "little"})
+        if i % be_every == 1 and merged is not None:
+            # big-endian twin: the same files with every 32-bit word byte-swapped; llvm-cov gcov on the twin is the reference
+            try:
+                bg = cgen.to_big_endian_gcno(gcno)
+                bs = [cgen.to_big_endian_gcda(x) for x in singles]
+                bm = cgen.to_big_endian_gcda(merged)
+                bref = cgen.gcov_reference_bytes(d + "_be", files, bg, bm)
+            except Exception as ex:
+                chk.extra.setdefault("skipped_programs", []).append("big-endian twin: " + str(ex)[:200])
+                continue
+            if {norm_name(k): v for k, v in bref.items()} != {norm_name(k): v for k, v in ref.items()}:
+                chk.extra.setdefault("reference_be_differs", []).append(i)    # the reference tool itself reads the twin differently: recorded
+            progs.append({"files": files, "args": args, "gcno": bg, "singles": bs, "merged": bm, "ref": bref, "version": version, "endian": "big"})
     cases = []
     for p in progs:
         cases.append(G.case(p["gcno"], [p["merged"]] if p["merged"] is not None else [], True))
@@ -112,14 +127,20 @@ def run(chk):
                                          shard_size=8)))
     dist = {"programs": len(progs), "flow_functions": 0, "flow_conserving_and_forest": 0, "runs": {}, "lines_compared": 0, "executed_lines": 0, "functions": 0, "functions_executed": 0,
             "multi_file": 0, "model_cases": 0, "gcno_bytes": []}
+    dist["versions"], dist["big_endian_twins"], dist["executed_by_version"] = {}, 0, {}
     for pi, p in enumerate(progs):
+        dist["versions"][p["version"]] = dist["versions"].get(p["version"], 0) + 1
+        dist["big_endian_twins"] += p["endian"] == "big"
+        key_ = p["version"] + ("/BE" if p["endian"] == "big" else "")
+        dist["executed_by_version"][key_] = dist["executed_by_version"].get(key_, 0) + sum(1 for v in p["ref"].values() for c in v["lines"].values() if c > 0)
         dist["runs"][str(len(p["args"]))] = dist["runs"].get(str(len(p["args"])), 0) + 1
         dist["gcno_bytes"].append(len(p["gcno"]))
         dist["multi_file"] += len(p["ref"]) > 1
         for which, ci in (("merged", 2 * pi), ("per-run list", 2 * pi + 1)):
             chk.count()
             r = impl[ci]
-            rep = {"source": p["files"], "args": p["args"], "gcno": p["gcno"].hex(), "gcdas": cases[ci]["gcdas"], "which": which}
+            rep = {"source": p["files"], "args": p["args"], "gcno": p["gcno"].hex(), "gcdas": cases[ci]["gcdas"], "which": which,
+                   "coverage_version": p["version"], "endian": p["endian"]}
             if "ok" not in r:
                 chk.violation(dict(rep, kind="oracle", impl=r, clause="Gcno::compute must accept the files the toolchain wrote"), tag="accept")
                 continue
@@ -170,13 +191,18 @@ def run(chk):
         chk.sample({"source": progs[0]["files"]["t.c"][:600], "args": progs[0]["args"]}, limit=1)
     chk.cov["rule"] = ("programs from a seeded C grammar (straight-line code, nested if/else, for/while/do loops, switch with fall-through, && / ||, ?:, early return, "
                        "break/continue, several statements per line, 1-4 functions + main, optionally static inline functions in an included header, functions never called), "
-                       "compiled with clang-14 --coverage -O0 (gcno version *804), run 0-3 times with different arguments; compared: llvm-cov-14 gcov -b -c on the runtime-merged gcda "
+                       "compiled with clang-14 --coverage -O0 with the gcov format version rotating over -Xclang -coverage-version= 408* (default), 407*, 402*, 409*, 406*, 404* "
+                       "(the exit block is the last block below 4.8 and block 1 from 4.8 on; cfg checksums from 4.7 on), run 0-3 times with different arguments; every third program (every second in thorough) "
+                       "also as a big-endian twin (own converter: every 32-bit word byte-swapped, string payload bytes kept, counters low word first) with llvm-cov gcov on the twin as reference; compared: llvm-cov-14 gcov -b -c on the runtime-merged gcda "
                        "(per-line counts, '-' vs instrumented, function 'called' counts) vs Gcno::compute on [merged gcda] and on the list of per-run gcda vs the Gallina model on the same bytes; "
                        "non-trivial = program with at least one executed line; distinct by source text")
     chk.cov["trusted_base"] = ["llvm-cov-14 gcov is the reference (not modelled)", "clang-14 and its profile runtime as producers", "parser of the .gcov text in py/cgen.py",
                                "Coq kernel, vm_compute, impl_run harness"]
     chk.assumptions = ["agreement with the reference tool's line attribution is validated differentially, not proved; the theorems are about the counting algorithm of reader.rs",
-                       "GCC-format gcno (version >= 80 paths) is compared with the checked-in fixtures only (C15 correspondence), not with gcov"]
+                       "GCC-format gcno (version >= 80 paths) is compared with the checked-in fixtures only (C15 correspondence), not with gcov",
+                       "clang-14 also writes -coverage-version 800*/801* and 900*/B0x*; llvm-cov-14 gcov reads them, but clang emits them in the GCC 8/9 record layout, which grcov decodes with its GCC rules "
+                       "(lines outside [start_line, end_line] dropped: most lines missing at 800*; an empty string written as one zero word is 'Invalid string (only zeros)' at 900* and later): "
+                       "these versions are not LLVM output as far as grcov is concerned and are left out; A0x* is rejected by llvm-cov-14 itself"]
 
 
 def replay(chk, path):
